@@ -45,13 +45,51 @@ pub struct Size {
     pub lines: usize,
     pub alts: usize,
     pub nest: usize,
+    /// multi-word keys of the document may be queried in another naming convention (the tool then
+    /// finds them through its case converters); only for checks that compare the tool with itself
+    pub alt_case: bool,
 }
 impl Size {
     pub fn quick() -> Size {
-        Size { doc_depth: 3, doc_width: 4, rules: 4, lines: 3, alts: 3, nest: 2 }
+        Size { doc_depth: 3, doc_width: 4, rules: 4, lines: 3, alts: 3, nest: 2, alt_case: false }
     }
     pub fn thorough() -> Size {
-        Size { doc_depth: 5, doc_width: 5, rules: 4, lines: 4, alts: 3, nest: 3 }
+        Size { doc_depth: 5, doc_width: 5, rules: 4, lines: 4, alts: 3, nest: 3, alt_case: false }
+    }
+}
+
+/// the same words in four naming conventions: [Pascal, snake, camel, kebab]
+pub const CASE_FAMILIES: [[&str; 4]; 2] = [["SizeLimit", "size_limit", "sizeLimit", "size-limit"], ["LogLevel", "log_level", "logLevel", "log-level"]];
+
+/// Adds, to the top-level map and to every resource's Properties, a non-empty subset of the
+/// spellings of one or two key families, each spelling with a value of its own.
+pub fn add_case_families(u: &mut Choices, doc: &mut V) {
+    fn add(u: &mut Choices, m: &mut Vec<(String, V)>) {
+        for fam in CASE_FAMILIES.iter() {
+            if !u.chance(2, 3) {
+                continue;
+            }
+            let mut any = false;
+            for (i, k) in fam.iter().enumerate() {
+                if u.chance(1, 2) || (i == 3 && !any) {
+                    any = true;
+                    m.retain(|(kk, _)| kk != k);
+                    m.push((k.to_string(), [V::Int(i as i64 + 1), V::s(&format!("v{}", i)), V::Bool(i % 2 == 0)][u.below(3)].clone()));
+                }
+            }
+        }
+    }
+    if let V::Map(m) = doc {
+        add(u, m);
+        if let Some((_, V::Map(res))) = m.iter_mut().find(|(k, _)| k == "Resources") {
+            for (_, r) in res.iter_mut() {
+                if let V::Map(rm) = r {
+                    if let Some((_, V::Map(pm))) = rm.iter_mut().find(|(k, _)| k == "Properties") {
+                        add(u, pm);
+                    }
+                }
+            }
+        }
     }
 }
 
@@ -228,6 +266,11 @@ impl<'a> PGen<'a> {
                         1 => Part::Idx(*i as i32),
                         _ => Part::Star,
                     }),
+                    Seg::K(k) if CASE_FAMILIES.iter().any(|f| f.contains(&k.as_str())) && (k.contains('-') || (self.sz.alt_case && u.chance(2, 3))) => {
+                        // another spelling of the same words (never the hyphenated one: not a bare key)
+                        let fam = CASE_FAMILIES.iter().find(|f| f.contains(&k.as_str())).unwrap();
+                        parts.push(Part::Key(fam[u.below(3)].to_string()))
+                    }
                     Seg::K(k) => parts.push(if u.chance(1, 5) { Part::Star } else { Part::Key(k.clone()) }),
                 }
             }
